@@ -886,6 +886,43 @@ def container_rules(repo, rep, m):
                 rep.holds('R-INDEX', key, where(g, g.node), 'the block `%s`, whose line %s is optional, is walked as a whole' % (var, sorted(idxs)), work=False)
 
 
+def verbatim_rules(repo, rep, m):
+    """'leaves every other line unchanged': the block readers whose lines the editors write back (comments, header and data blocks) keep each
+    line as it is in the file apart from the line end - `line.rstrip()`.  A reader that strips BOTH ends removes the blank in column 1
+    that marks a SINEX data line: ' Reference frame: ITRF2014' in +FILE/COMMENT comes out as 'Reference frame: ITRF2014', which is not a
+    SINEX line.  Sibling rule over the readers reachable from the three editors (15 of them; the line-end idiom is theirs)."""
+    rs = Resolver(repo)
+    seen = {}
+    todo = [m.functions[n] for n in EDITORS]
+    while todo:
+        f = todo.pop()
+        if f.qualname in seen:
+            continue
+        seen[f.qualname] = f
+        for c in calls_in(f.node):
+            t = rs.callee(f, c)
+            if isinstance(t, Func) and t.module is m:
+                todo.append(t)
+    n = 0
+    for q, f in sorted(seen.items()):
+        if q in EDITORS:
+            continue
+        for c in ast.walk(f.node):
+            if isinstance(c, ast.Call) and isinstance(c.func, ast.Attribute) and c.func.attr == 'append' and len(c.args) == 1:
+                a = c.args[0]
+                if isinstance(a, ast.Call) and isinstance(a.func, ast.Attribute) and a.func.attr in ('strip', 'lstrip', 'rstrip') and isinstance(a.func.value, ast.Name) \
+                        and a.func.value.id == 'line':
+                    n += 1
+                    key = 'R-FORMAT::geodepy/gnss.py::%s::verbatim-lines' % q
+                    if a.func.attr == 'rstrip':
+                        rep.holds('R-FORMAT', key, where(f, c), '%s keeps each line apart from its line end (line.rstrip())' % q, work=False)
+                    else:
+                        rep.violated('R-FORMAT', key, where(f, c), '%s stores `%s`: the leading blank of a data line is removed, and the editors write the stored lines back - a +FILE/COMMENT text '
+                                     'line " Reference frame: ITRF2014" reappears in the output starting in column 1, which is not a SINEX line; every other block reader uses line.rstrip()' % (
+                                         q, stmt_text(a)[:30]), expected='line.rstrip()', actual=stmt_text(a)[:40])
+    rep.floor('R-FORMAT', 10, 'formats and block readers')
+
+
 def run(repo, rep):
     m = repo.module('geodepy.gnss')
     rep.trust('python ast of geodepy/gnss.py; string-shape summaries of its own reader functions (rstrip/strip -> no newline, readline -> newline)')
@@ -897,6 +934,7 @@ def run(repo, rep):
     prefix_rules(repo, rep, m)
     reader_rules(repo, rep, m)
     container_rules(repo, rep, m)
+    verbatim_rules(repo, rep, m)
     from . import c18x
     c18x.run(rep, m)
     c18x.run2(rep, m)
